@@ -420,6 +420,21 @@ def run(tier):
     stats = {}
     depth = 12 if tier == "quick" else 16
     rs = reject_sweep(ck, tier, stats)
+    # releasing a packet a second time (after the pipeline has gone idle) is documented nowhere as forbidden and is a no-op in this library:
+    # svt_av1_enc_release_out_buffer clears the packet's payload pointer and svt_release_object ignores a released wrapper
+    for hist in (["IH", "SP", "IN", "SEND", "EOS"], ["IH", "SP", "IN", "SEND", "SEND", "EOS"]):
+        r = execute(hist + ["DRAIN_HOLD_REL2", "DEINIT", "DH"], watchdog=60)
+        seq = [(l[0], int(l[1])) for l in r["lines"] if l and l[0] not in ("PACKET", "END", "WATCHDOG", "SIGNAL") and len(l) > 1]
+        stats["double_release_histories"] = stats.get("double_release_histories", 0) + 1
+        if blocked(r):
+            r2 = confirm_blocked(hist + ["DRAIN_HOLD_REL2", "DEINIT", "DH"], stats, "DRAIN_HOLD_REL2") or r
+            if r2.get("unconfirmed") or not blocked(r2):
+                continue
+            ck.violation("C14:blocks:release-twice", "releasing every packet twice after [%s] blocks" % " ".join(hist), {"history": hist, "op": "DRAIN_HOLD_REL2", "completion": ["DEINIT", "DH"]})
+        elif r.get("rc") != 0 or any(c != ERR_NONE for _, c in seq):
+            site = enc.sanitizer_site(r.get("stderr", ""))
+            ck.violation("C14:crash:release-twice", "releasing every packet twice after [%s]: %s" % (" ".join(hist), site or ("status %s, calls %s" % (r.get("rc"), seq[-3:]))),
+                         {"history": hist, "op": "DRAIN_HOLD_REL2", "completion": ["DEINIT", "DH"]})
     s2, t2, d2, sm2, c2 = bfs(ck, DecState(), depth, stats)
     s1, t1, d1, sm1, c1 = bfs(ck, EncState(), depth, stats)
     cov = {"states": s1 + s2, "transitions": t1 + t2, "traces_validated_against_impl": t1 + t2, "samples": (sm1 + sm2) or ["IH SP IN"],
